@@ -37,6 +37,7 @@ import shutil
 import common
 import sexp
 from props import c08gen
+from props import liftfull_engine
 
 # class name (c08gen) -> id in known_findings.jsonl
 KF_IDS = {"decl-tuple-dup-name": "C08-decl-tuple-duplicate-name"}
@@ -389,6 +390,7 @@ def run(ctx, proofs):
     nontrivial = set()
     e2e_pool = []
     sample = None
+    lf_sources, lf_exempt = [], set()     # for the hypothesis of the C08_liftfull_* theorems, below
     triples = ((c, im, mo) for batch in batches() for c, im, mo in zip(batch, *evaluate(batch, harness, model)))
     for c, im, mo in triples:
         if len(e2e_pool) < 4 * (96 if quick else 600) and not any(c08gen.known_classes(d) for d in c["defs"]) \
@@ -402,6 +404,10 @@ def run(ctx, proofs):
         stats["files"] += 1
         if im["parse_reports"]:
             stats["files_with_parse_reports"] += 1
+        lf_sources.append((c["origin"], c["src"]))
+        for defn in c["defs"]:
+            if hypothesis_exempt(defn, listed):
+                lf_exempt.add((c["src"], defn["name"]))
         for defn in c["defs"]:
             name = defn["name"]
             got = im["defs"].get(name)
@@ -495,6 +501,61 @@ def run(ctx, proofs):
                 for a in defn["assigns"]:
                     for code, nsec in by_anchor.get(tuple(a["anchor"]), []):
                         nontrivial.add((a["form"], "[" in a["key"][1], "." in a["key"][1], "#" in a["key"][1], code, nsec))
+
+    # The hypothesis of C08_liftfull_distinct_sources_distinct_subkeys - no two `<--` / `-->` statements of the
+    # syntax tree handed to lifting carry the same meta - EVALUATED (Model.SigAssignSource.source_metas_distinct_b,
+    # extracted into the liftfull driver) on every definition the real parser + desugarer produce for the sources of
+    # this run.  It is legitimately unmet by declaration tuples / lists with `<--` (every element gets the
+    # declaration's own Meta): there the CONCLUSION (subkeys_distinct of the lifted graph) is evaluated directly.
+    # met & conclusion false = the theorem contradicted by the extracted code; unmet & conclusion false outside the
+    # listed known-finding class = two `<--` statements agree in location, name and component path.
+    lf = {"sources": len(lf_sources), "definitions": 0, "definitions_with_arrow": 0, "hypothesis_met": 0,
+          "hypothesis_unmet": 0, "unmet_conclusion_evaluated_true": 0, "unmet_in_known_class": 0, "not_lifted": 0,
+          "arrow_statements": 0}
+    lf_rows, lf_status = liftfull_engine.flags_for_sources(common, lf_sources)
+    lf["sources_without_definitions"] = dict(lf_status)
+    lf_seen = set()
+    lf_unmet_sample = None
+    for row in lf_rows:
+        if (row["src"], row["def"]) in lf_seen:
+            continue
+        lf_seen.add((row["src"], row["def"]))
+        fl = row["flags"]
+        lf["definitions"] += 1
+        dname = row["def"].split(" ")[2] if row["def"].startswith("(def ") else "?"
+        sd, skd, sn = fl.get("SD"), fl.get("SKD"), int(fl.get("SN", "0") or 0)
+        if sd not in ("0", "1"):
+            hyp_broken.append({"input": row["src"], "origin": row["label"], "definition": dname,
+                               "hypothesis": "source_metas_distinct_b was not evaluated by the liftfull driver: " + row["model"][:120]})
+            continue
+        lf["arrow_statements"] += sn
+        if sn:
+            lf["definitions_with_arrow"] += 1
+        if skd == "-":
+            lf["not_lifted"] += 1
+        if sd == "1":
+            lf["hypothesis_met"] += 1
+            if skd == "0":
+                hyp_broken.append({"input": row["src"], "origin": row["label"], "definition": dname,
+                                   "hypothesis": "C08_liftfull_distinct_sources_distinct_subkeys contradicted by the extracted "
+                                                 "mirror: source metas distinct, subkeys of the lifted graph not"})
+        else:
+            lf["hypothesis_unmet"] += 1
+            if lf_unmet_sample is None:
+                lf_unmet_sample = {"origin": row["label"], "definition": dname, "src": row["src"][:600]}
+            if skd == "1":
+                lf["unmet_conclusion_evaluated_true"] += 1
+            elif skd == "0" and (row["src"], dname) in lf_exempt:
+                lf["unmet_in_known_class"] += 1
+            elif skd == "0":
+                hyp_broken.append({"input": row["src"], "origin": row["label"], "definition": dname,
+                                   "hypothesis": "source metas of the `<--` statements not distinct AND subkeys_distinct of the "
+                                                 "lifted graph false, outside the known-finding class"})
+    lf["unmet_sample"] = lf_unmet_sample
+    if lf["definitions_with_arrow"] == 0 or lf["hypothesis_met"] == 0:
+        hyp_broken.append({"input": None, "origin": "liftfull stage", "definition": "-",
+                           "hypothesis": "degenerate: the hypothesis of the C08_liftfull theorems was evaluated on no definition "
+                                         "with a `<--` statement"})
 
     # the checks of the hypotheses are themselves checked on every run
     selftest = hypothesis_selftest(harness, model)
@@ -592,6 +653,7 @@ def run(ctx, proofs):
         "findings_demanded_in_parallel_templates": stats["findings_demanded_in_parallel_templates"],
         "definition_types_checked_against_header": stats["definition_types_checked"],
         "hypothesis_evaluations": stats["hypothesis_evaluations"],
+        "liftfull_hypothesis": lf,
         "source_statements_matched_with_cfg_statements": stats["source_statements_matched"],
         "keys_not_distinct_in_known_class": stats["keys_not_distinct_in_known_class"],
         "known_finding_witness_vs_coq_term": kf_witness(harness),
